@@ -119,9 +119,11 @@ pub fn singles() -> Vec<OSpec> {
 pub fn space(thorough: bool) -> Vec<Prog> {
     let mut out = vec![];
     let s = singles();
+    // WGSL names in several styles: the map key must be the WGSL identifier itself
+    let names = ["ov_a", "maxLights", "GAIN", "useFog2", "\u{c9}tendue", "x"];
     for (i, a) in s.iter().enumerate() {
         let mut a = a.clone();
-        a.name = "ov_a".into();
+        a.name = names[i % names.len()].into();
         out.push(build(vec![a], format!("single|{i}")));
     }
     // pairs: all ordered pairs in thorough, a diagonal band in quick
@@ -134,9 +136,9 @@ pub fn space(thorough: bool) -> Vec<Prog> {
                 continue;
             }
             let mut a = a.clone();
-            a.name = "zz_first".into();
+            a.name = ["zz_first", "zzFirst", "ZZ_FIRST"][(i + j) % 3].into();
             let mut b = b.clone();
-            b.name = "aa_second".into();
+            b.name = ["aa_second", "aaSecond", "AA2"][(i * 2 + j) % 3].into();
             out.push(build(vec![a, b], format!("pair|{i}|{j}")));
         }
     }
@@ -177,12 +179,11 @@ pub fn check_model(p: &Prog, text: &str) -> Vec<String> {
         want.push((s.name.clone(), if s.optional() { format!("Option<{t}>") } else { t.to_string() }));
     }
     let got: Vec<(String, String)> = st.fields.iter().map(|f| (f.name.clone(), f.ty.clone())).collect();
-    let mut a = want.clone();
-    a.sort();
-    let mut b = got.clone();
-    b.sort();
+    // one field per override, in declaration order, of the matching type (Option <=> default)
+    let a: Vec<&String> = want.iter().map(|x| &x.1).collect();
+    let b: Vec<&String> = got.iter().map(|x| &x.1).collect();
     if a != b {
-        out.push(format!("OverrideConstants fields {got:?}, expected {want:?}"));
+        out.push(format!("OverrideConstants fields {got:?}, expected one field per override with types {want:?}"));
     }
     // keys used by constants()
     if let Some(imp) = m.top.impls.iter().find(|i| i.self_ty == "OverrideConstants" && i.trait_.is_none()) {
@@ -204,22 +205,31 @@ pub fn check_model(p: &Prog, text: &str) -> Vec<String> {
     out
 }
 
-pub fn probe_code(p: &Prog) -> String {
+/// Field names of `OverrideConstants` in declaration order, as emitted (the statement fixes one field per
+/// override and the map keys, not the Rust field names).
+pub fn field_names(text: &str) -> Option<Vec<String>> {
+    let m = omodel::parse(text).ok()?;
+    let st = m.top.structs.iter().find(|s| s.name == "OverrideConstants")?;
+    Some(st.fields.iter().map(|f| f.name.clone()).collect())
+}
+
+pub fn probe_code(p: &Prog, fields: &[String]) -> String {
     let mut s = String::from("    use generated::*;\n    let module = create_shader_module(device);\n    let dump = |m: &std::collections::HashMap<String, f64>| -> String { let mut v: Vec<String> = m.iter().map(|(k, x)| format!(\"[{},\\\"{}\\\"]\", jstr(k), x.to_bits())).collect(); v.sort(); format!(\"[{}]\", v.join(\",\")) };\n");
     for (k, asg) in assignments(p).iter().enumerate() {
-        let mut fields = vec!["base_ov: None".to_string()];
-        for (spec, v) in p.specs.iter().zip(asg.iter()) {
+        let fname = |i: usize, fallback: &str| fields.get(i).cloned().unwrap_or_else(|| fallback.to_string());
+        let mut fields_s = vec![format!("{}: None", fname(0, "base_ov"))];
+        for (si, (spec, v)) in p.specs.iter().zip(asg.iter()).enumerate() {
             let e = match (spec.optional(), v) {
                 (true, Some((lit, _))) => format!("Some({lit})"),
                 (true, None) => "None".to_string(),
                 (false, Some((lit, _))) => lit.clone(),
                 (false, None) => unreachable!(),
             };
-            fields.push(format!("{}: {e}", spec.name));
+            fields_s.push(format!("{}: {e}", fname(si + 1, &spec.name)));
         }
         s.push_str(&format!(
             "    {{\n        let ov = OverrideConstants {{ {} }};\n        let direct = ov.constants();\n        let ve = vs_main_entry(&ov);\n        let fe = fs_main_entry([None], &ov);\n        let vst = vertex_state(&module, &ve);\n        let fst = fragment_state(&module, &fe);\n        out.push(format!(\"{{{{\\\"op\\\":\\\"overrides\\\",\\\"k\\\":{k},\\\"direct\\\":{{}},\\\"vertex_entry\\\":{{}},\\\"fragment_entry\\\":{{}},\\\"vertex_state\\\":{{}},\\\"fragment_state\\\":{{}}}}}}\", dump(&direct), dump(&ve.constants), dump(&fe.constants), dump(vst.compilation_options.constants), dump(fst.compilation_options.constants)));\n    }}\n",
-            fields.join(", ")
+            fields_s.join(", ")
         ));
     }
     s
@@ -269,7 +279,8 @@ pub fn run(tier: &str) -> i32 {
         }
         let name = format!("c_{i:05}");
         index.insert(name.clone(), i);
-        cases.push(ProbeCase { name, generated: t.clone(), probe_body: probe_code(p), probe_items: String::new(), files: vec![] });
+        let fields = field_names(t).unwrap_or_default();
+        cases.push(ProbeCase { name, generated: t.clone(), probe_body: probe_code(p, &fields), probe_items: String::new(), files: vec![] });
     }
     let results = probe::run_batch("C12", &cases, true);
     for cr in &results {
